@@ -31,4 +31,10 @@ CHECKS["C12"] = {
   "text": "to_hex: hexval(result) == dec for every dec >= 0 (induction via the function's own contract, termination by decreases dec), exact digits for dec < 256. evo_get_selection: for all 1 <= rows, cols <= 255 and every 0/1 selection array the result equals the spec string hex2(cols) ++ hex2(rows) ++ evo_body(N div 7) ++ [partial group], where evo_body is defined by recursion (7 wells per character, column-major, LSB first, offset 48); length 4 + ceil(N/7). Both loops are cut by invariants (bit_counter = k mod 7, partial mask, completed groups) and proved for an arbitrary iteration.",
   "note": "The decoder direction (decode(spec string) = selection, injectivity, padding bits zero) follows from the bit-wise definition of evo_body/partial_mask; it is additionally validated by the native replay clause and is not a separate SMT lemma. a | 2^k == a + 2^k for a < 2^k and chr/ord are library axioms. len(evo_body(j)) == j is proved by induction as a lemma. evo_make_selection_array is covered through C13.",
 }
+CHECKS["C09"] = {
+  "category": "proof",
+  "technique": "contract-based deductive verification: postconditions (appended record == rope of the arguments in slot order, every field separator-free), exceptional postconditions (raise iff unrepresentable, nothing appended) on the real emitter bodies; modular use of the validation contract; z3 strings",
+  "text": "For aspirate_well, dispense_well, reagent_distribution, comment, wash, decontaminate, flush, commit, set_diti the real body is proved, per type-case, to append exactly one record equal to the Tecan rope of its arguments (11 fields for A/D, 15 + sorted exclusions for R) whose fields contain no separator / line break (so split(';') returns the arguments: generic split/join lemma), to raise for exactly the unrepresentable argument tuples, and to leave the record list unchanged on every raise exit. prepare_aspirate_dispense_parameters is verified separately (C10 contract) and used here by its contract.",
+  "note": "Number formatting (str(int), '.2f', str(float), numpy.round) is axiomatised by uninterpreted functions with separator-freeness; text fields are assumed printable (no line breaks) as in the property's quantifier; exclusion lists are proved for lengths 0..3 (symbolic contents); multi-line comments for 1 and 2 lines; bool positions/indices are outside the universe. The split/join inverse lemma is Lean's List.splitOn_intercalate (checked by lean in the thorough tier).",
+}
 NOT_APPLICABLE = {}
